@@ -6,7 +6,7 @@ CONSTANTS
   MaxNoise = 0
   MaxFaults = 1
   Emit = TRUE
-  FixDup = FALSE
+  FixDup = TRUE
   DupAlso = TRUE
 INVARIANTS Safe SafeWire EmitScn
 CHECK_DEADLOCK FALSE
